@@ -280,14 +280,32 @@ def run(ctx):
                         "the model; other negative values have no meaning in the statement) - not exercised"]
     n_cases = 1500 if ctx.quick else 20000
     cases = [gen_case(rng, ctx.quick) for _ in range(n_cases)]
-    cases += [gen_case(rng, True, default_regressor=True) for _ in range(6 if ctx.quick else 60)]
-    impls = [run_impl(c) for c in cases]
+    real = [gen_case(rng, True, default_regressor=True) for _ in range(6 if ctx.quick else 60)]
+    # stub-regressor cases first; the cases with the constructors' own regressors afterwards (their training may
+    # fail inside scikit-learn / SMT when the wrapper trains at the wrong moment - reported with the input)
+    for group in (cases, real):
+        impls = []
+        for c in group:
+            try:
+                impls.append(run_impl(c))
+            except Exception as e:
+                if not c["default_regressor"]:
+                    raise
+                ctx.fail("surrogate-default-regressor-raises", "%s wrapper with its default regressor, train_step %r, "
+                         "%d requests: %s: %s" % (c["wrapper"], effective_step(c), len(c["requests"]), type(e).__name__, e),
+                         {"op": "surrogate", "case": c, "findings": []})
+                return
+        if not check_group(ctx, group, impls):
+            return
+
+
+def check_group(ctx, cases, impls):
     for c, i in zip(cases, impls):      # constructor defaults of train_step are part of the wrappers
         if c["wrapper"] != "eval" and c["train_step"] is None and "raised" not in i:
             if i["effective_train_step"] != effective_step(c):
                 ctx.fail("surrogate-default-train-step", "%s wrapper: default train_step is %r, modelled %r" % (
                     c["wrapper"], i["effective_train_step"], effective_step(c)), {"case": c})
-                return
+                return False
     answers = ctx.lean([lean_line(c, effective_step(c)) for c in cases])
     for c, i, ans in zip(cases, impls, answers):
         model = parse_answer(ans)
@@ -310,7 +328,8 @@ def run(ctx):
         bad = diff(i, model)
         if bad:
             report(ctx, c, bad)
-            return
+            return False
+    return True
 
 
 def fails(case):
@@ -349,13 +368,19 @@ def replay(ctx, rp):
 
 
 def search(ctx):
-    c = {"wrapper": "scikit", "n": 1, "obj": [[0, 1]], "requests": [([1], None), ([2], [PRED_BASE]), ([3], None)],
-         "train_step": 1, "trained0": False, "has_hook": True, "via_job": False, "default_regressor": False}
-    try:
-        bad = fails(c)
-    except Exception:
-        return False
-    if bad:
-        ctx.fail(bad[0][0], bad[0][1], {"op": "surrogate", "case": c, "findings": [list(b) for b in bad[:8]]})
-        return True
+    """The harness could not run its streams: try small scripted cases through whatever still works."""
+    reqs = [([1], None), ([2], [PRED_BASE]), ([3], None), ([4], [PRED_BASE + 1]), ([5], None), ([6], [PRED_BASE + 2])]
+    for wrapper in ("scikit", "smt", "eval"):
+        for ts in (1, 2, 3, -1):
+            for trained0 in (False, True):
+                c = {"wrapper": wrapper, "n": 1, "obj": [[0, 1]], "requests": reqs, "train_step": ts, "trained0": trained0,
+                     "has_hook": True, "via_job": False, "default_regressor": False}
+                try:
+                    bad = fails(c)
+                except Exception:
+                    continue
+                if bad:
+                    ctx.fail(bad[0][0], "%s wrapper, train_step %r, trained at start %r: %s" % (wrapper, ts, trained0, bad[0][1]),
+                             {"op": "surrogate", "case": c, "findings": [list(b) for b in bad[:8]]})
+                    return True
     return False
